@@ -59,7 +59,7 @@ package common
 //@   loop 0 invariant offset0 >= 0 && offset >= offset0 && offset <= len(data)
 
 //@ func (a *AddressPayloadPointer) decode(data) (n, err)
-//@   props C05
+//@   props C02 C05
 //@   requires nonnil: a != nil
 //@   assigns a.Slot, a.TxIndex, a.CertIndex
 //@   ensures consumed: err == nil ==> n >= 3 && n <= len(data)
@@ -73,7 +73,7 @@ package common
 // payload bytes, and the length is exactly the type's length unless the extra bytes were kept as a
 // (mainnet, whitelisted) trailer.
 //@ func (a *Address) populateFromBytes(data) (err)
-//@   props C05
+//@   props C02 C05
 //@   attr maxpaths 3000
 //@   requires nonnil: a != nil
 //@   requires fresh: len(a.extraData) == 0
@@ -103,7 +103,7 @@ package common
 // of the Blake2b-256 hashes of block items 1..n-1 (n is the era's item count), as decoded from data.
 //@ spec rec func hashcat(raw []cbor.RawMessage, k int) Seq = ite(k <= 1, emptyseq(), cat(hashcat(raw, k-1), seq(H256(seq(raw[k-1])))))
 //@ func ValidateBlockBodyHash(data, expectedBodyHash, eraName, minRawLength) (err)
-//@   props C34
+//@   props C02 C34
 //@   attr trackcalls on
 //@   requires items: minRawLength >= 1 && minRawLength <= 8
 //@   ensures bound: err == nil ==> called(Decode) && callarg(Decode, 0) == data && callres(Decode, 1) == nil &&
@@ -351,6 +351,7 @@ package common
 //@ spec func q(a *math/big.Int) Int = ite(a == nil, 0, val(a))
 //@ func addAmounts[*math/big.Int](a, b) (r)
 //@   props C06
+//@   assigns nothing
 //@   ensures sum: r != nil && val(r) == q(a) + q(b)
 //@   ensures fresh: r != a && r != b
 //@ func amountsEqual[*math/big.Int](a, b) (r)
@@ -370,6 +371,29 @@ package common
 //@   pure
 //@   requires nonnil: m != nil
 //@   ensures view: forall a cbor.ByteString :: seq(a.ByteString) == seq(assetName) ==> q(r) == qty(m, policyId, a)
+
+// C06: adding a value agrees with per-asset integer addition, for every (policy, asset name) at once
+// (also the untouched ones), and leaves the other operand as it was. The two values must not share
+// their maps (adding a value to itself would insert into a map that is being iterated).
+//@ func (m *MultiAsset[*math/big.Int]) Add(other) ()
+//@   props C06
+//@   requires shape: m != nil && m.data != nil
+//@   requires separate: other != nil ==> other != m && other.data != m.data &&
+//@       (forall p Blake2b224, p2 Blake2b224 :: p in m.data && p2 in other.data ==> m.data[p] != other.data[p2])
+//@   requires noshare: forall p Blake2b224, p2 Blake2b224 :: p in m.data && p2 in m.data && p != p2 ==> m.data[p] != m.data[p2]
+//@   ensures sum: other != nil ==> forall p Blake2b224, a cbor.ByteString :: qty(m, p, a) == old(qty(m, p, a)) + old(qty(other, p, a))
+//@   ensures operand: other != nil ==> forall p Blake2b224, a cbor.ByteString :: qty(other, p, a) == old(qty(other, p, a))
+//@   loop 0 invariant m.data != nil && other.data == old(other.data) && m.data == old(m.data)
+//@   loop 0 invariant forall p Blake2b224, p2 Blake2b224 :: p in m.data && p2 in other.data ==> m.data[p] != other.data[p2]
+//@   loop 0 invariant forall p Blake2b224, p2 Blake2b224 :: p in m.data && p2 in m.data && p != p2 ==> m.data[p] != m.data[p2]
+//@   loop 0 invariant forall p Blake2b224, a cbor.ByteString :: qty(other, p, a) == old(qty(other, p, a))
+//@   loop 0 invariant forall p Blake2b224, a cbor.ByteString :: qty(m, p, a) == old(qty(m, p, a)) + ite(visited[p], old(qty(other, p, a)), 0)
+//@   loop 1 invariant m.data != nil && other.data == old(other.data) && m.data == old(m.data) && policy in other.data && assets == other.data[policy]
+//@   loop 1 invariant forall p Blake2b224, p2 Blake2b224 :: p in m.data && p2 in other.data ==> m.data[p] != other.data[p2]
+//@   loop 1 invariant forall p Blake2b224, p2 Blake2b224 :: p in m.data && p2 in m.data && p != p2 ==> m.data[p] != m.data[p2]
+//@   loop 1 invariant forall p Blake2b224, a cbor.ByteString :: qty(other, p, a) == old(qty(other, p, a))
+//@   loop 1 invariant forall p Blake2b224, a cbor.ByteString :: p != policy ==> qty(m, p, a) == old(qty(m, p, a)) + ite(visited0[p], old(qty(other, p, a)), 0)
+//@   loop 1 invariant forall a cbor.ByteString :: qty(m, policy, a) == old(qty(m, policy, a)) + ite(visited[a], old(qty(other, policy, a)), 0)
 
 // C02: the hand-written byte-level fast path for text-keyed metadata maps. No index or slice
 // expression can panic for any input and offset; a length or count read from the input is at most
@@ -402,32 +426,63 @@ package common
 //@   props C02
 //@   requires off: offset >= 0
 //@   ensures inside: ok ==> end > offset && end <= len(b)
+//@   loop 0 invariant cur >= offset && cur <= len(b)
+//@   loop 1 invariant cur >= offset && cur <= len(b)
 
 // C02 / C07: the block offset extractors index and slice the block bytes with offsets computed from
 // container headers and decoder positions; none of those expressions can panic, for any input.
 //@ func cborArrayInfo(data) (count, hdr, indef)
-//@   props C02
+//@   props C02 C07
 //@   pure
 //@   ensures header: (count >= 0 || indef) ==> hdr >= 1 && hdr <= 9 && int(hdr) <= len(data)
+//@   ensures exact: (count >= 0 || indef) ==> int(hdr) == ite(data[0] == 159 || data[0] == 191, int(1), cbor.hdrLen(data[0])) && (indef <==> (data[0] == 159))
 //@   ensures count: count >= -1 && count <= 2147483647
 //@ func cborMapInfo(data) (count, hdr, indef)
-//@   props C02
+//@   props C02 C07
 //@   pure
 //@   ensures header: (count >= 0 || indef) ==> hdr >= 1 && hdr <= 9 && int(hdr) <= len(data)
+//@   ensures exact: (count >= 0 || indef) ==> int(hdr) == ite(data[0] == 159 || data[0] == 191, int(1), cbor.hdrLen(data[0])) && (indef <==> (data[0] == 191))
 //@   ensures count: count >= -1 && count <= 2147483647
 //@ func extractOutputOffsets(bodyData, bodyOffset, loc) ()
 //@   props C02
+//@   attr tier thorough
 //@ func extractWitnessComponentOffsets(witnessData, baseOffset, loc) ()
 //@   props C02
 //@ func extractDatumOffsets(datumArrayData, baseOffset, result) ()
 //@   props C02
+//@   assigns result[*], gfall(read), cells(cbor.RawMessage), elems(cbor.RawMessage), cells([]cbor.RawMessage), elems(byte), cells(uint64), elems(uint64), cells([]uint64)
 //@ func extractRedeemerMapOffsets(redeemerData, baseOffset, result) ()
 //@   props C02
+//@   assigns result[*], gfall(read), cells(cbor.RawMessage), elems(cbor.RawMessage), cells([]cbor.RawMessage), elems(byte), cells(uint64), elems(uint64), cells([]uint64)
 //@ func extractRedeemerArrayOffsets(redeemerData, baseOffset, result) ()
 //@   props C02
+//@   assigns result[*], gfall(read), cells(cbor.RawMessage), elems(cbor.RawMessage), cells([]cbor.RawMessage), elems(byte), cells(uint64), elems(uint64), cells([]uint64)
 //@ func extractScriptArrayOffsets(scriptArrayData, baseOffset, scriptType, result) ()
 //@   props C02
+//@   assigns result[*], gfall(read), cells(cbor.RawMessage), elems(cbor.RawMessage), cells([]cbor.RawMessage), elems(byte), cells(uint64), elems(uint64), cells([]uint64)
 //@ func extractMetadataOffsets(mapData, baseOffset, result) (err)
 //@   props C02
 //@ func extractByronOutputOffsets(bodyData, bodyOffset, loc) ()
+//@   props C02
+//@ func isByronBlock(blockArray) (r)
+//@   props C02
+//@   assigns cells([]cbor.RawMessage), elems(cbor.RawMessage), elems(byte)
+//@   ensures shape: r ==> len(blockArray) == 3
+//@ func isDijkstraBlock(blockArray) (r)
+//@   props C02
+//@   assigns cells([]cbor.RawMessage), elems(cbor.RawMessage), elems(byte)
+//@   ensures shape: r ==> len(blockArray) == 2
+//@ func extractByronTransactionOffsets(cborData, blockArray) (r, err)
+//@   props C02
+//@   requires shape: len(blockArray) == 3
+// (not swept: 4167 paths and a 12-minute run with undecided obligations; callers treat it as an
+// unknown function that may write anything and return anything)
+//@ func extractDijkstraTransactionOffsets(cborData, blockArray) (r, err)
+//@   nobody
+//@ func ExtractTransactionOffsets(cborData) (r, err)
+//@   props C02
+//@   attr tier thorough
+//@ func ExtractAndSetTransactionCbor(cborData, setBodyCbor, setWitnessCbor, txCount) (err)
+//@   props C02
+//@ func DecodeMetadatumRaw(b) (md, err)
 //@   props C02
